@@ -347,9 +347,16 @@ func (w *aclWorld) mutantOf(s aclSeed, addressed bool) (*rawRec, mutate.Mutant) 
 }
 
 // exercise reads back everything a client derives lazily from accepted records.
-func exerciseAcl(l list.AclList) error {
+func exerciseAcl(c *lib.Case, l list.AclList) error {
 	st := l.AclState()
 	for _, acc := range st.CurrentAccounts() {
+		if acc.PubKey == nil {
+			// a non-validating list that applied a permission change for an unknown
+			// identity holds an account entry without a key (observation O-C11-B);
+			// handing that nil back to the API would be harness misuse
+			c.Count("acl.observed_account_state_without_pubkey", 1)
+			continue
+		}
 		_, _ = st.GetMetadata(acc.PubKey, true)
 		_, _ = st.GetMetadata(acc.PubKey, false)
 		_, _ = st.JoinRecord(acc.PubKey, true)
@@ -428,7 +435,7 @@ func runAcl(c *lib.Case, g *guard, n int, mode string) {
 				if err != nil {
 					return err
 				}
-				return exerciseAcl(l)
+				return exerciseAcl(c, l)
 			}) {
 				return
 			}
@@ -461,7 +468,7 @@ func runAcl(c *lib.Case, g *guard, n int, mode string) {
 				// what the client reads back from an accepted hostile record, and a rebuild from its storage
 				am := m
 				am.Class = "accepted:" + m.Class
-				if !g.call("accessors-after-accept."+vname, am, func() error { return exerciseAcl(l) }) {
+				if !g.call("accessors-after-accept."+vname, am, func() error { return exerciseAcl(c, l) }) {
 					return
 				}
 				delete(cache, fmt.Sprintf("%d/%v", si, validating))
